@@ -74,7 +74,8 @@ pub fn describe(font: &Font, tr: &Track) -> String {
         let mut entries = Vec::new();
         for g in l.iter() {
             // BTreeMap order of `glyphs` = order of `contents` (same key type) when the two are in step
-            let file = l.get_path(g.name()).map(|p| p.to_string_lossy().to_string());
+            // file names and directories are spelled byte-exactly, like the tree tokens
+            let file = l.get_path(g.name()).map(|p| esc_path(p));
             let st = if g.lib.contains_key("public.objectLibs") || g.encode_xml().is_err() { "b" } else { "o" };
             match file {
                 Some(f) => entries.push(format!("{}={}={}", hexs(g.name()), hexs(&f), st)),
@@ -84,7 +85,7 @@ pub fn describe(font: &Font, tr: &Track) -> String {
         layers.push(format!(
             "{}~{}~{}~{}",
             hexs(l.name()),
-            hexs(&l.path().to_string_lossy()),
+            hexs(&esc_path(l.path())),
             tokn(l.color.is_some() || !l.lib.is_empty()),
             entries.join("+")
         ));
